@@ -86,7 +86,14 @@ class GroupAdditivityScheme(Scheme):
         if 'pretreatment_rules' in scheme_data:
             pretreatment_rules = scheme_data['pretreatment_rules']
         if 'remaps' in scheme_data:
-            remaps = scheme_data['remaps']
+            # Groups are looked up in the remaps by their canonical name, so
+            # spell the keys canonically whatever order the file uses.
+            for name in scheme_data['remaps']:
+                try:
+                    canon_name = Group.parse(None, name).name
+                except Exception:
+                    canon_name = name
+                remaps[canon_name] = scheme_data['remaps'][name]
         if 'other_descriptors' in scheme_data:
             for i in range(0, len(scheme_data['other_descriptors'])):
                 scheme_data['other_descriptors'][i]['connectivity'] = \
